@@ -5,24 +5,24 @@ CONSTANTS
   SrvMax = 0
   Ports = {}
   UsePool = FALSE
-  Idle = 3
-  WaitData = 2
-  SockT = 2
+  Idle = 0
+  WaitData = 0
+  SockT = 0
   KF = {}
-  Cmds <- c_CmdsT
-  Datas <- c_DatasQ
+  Cmds <- c_Cmds
+  Datas <- c_Datas
   InitTree <- c_Tree
   Block = 2
   Faults = FALSE
   PortFaults = FALSE
-  Cuts = TRUE
-  MaxNow = 9
-  MaxLevel = 20
+  Cuts = FALSE
+  MaxNow = 0
+  MaxLevel = 11
   Pipe = TRUE
   MaxDin = 3
 INIT MCInit
 NEXT MCNext
-CONSTRAINT SeqConstraint
+CONSTRAINT PermConstraint
 INVARIANT C10_SlotConservation
 INVARIANT C10_USlotConservation
 INVARIANT C12_EndedHoldsNothing
@@ -35,4 +35,6 @@ INVARIANT NoStuck
 PROPERTY C03_NoServeBeforeLogin
 PROPERTY C03_TreeNeedsLogin
 PROPERTY C05_RestScoped
+INVARIANT C04_RefusalIsNoop
+INVARIANT C04_NearestDefined
 CHECK_DEADLOCK FALSE
